@@ -33,7 +33,7 @@ Events == LET raw == ndJsonDeserialize(EventFile) IN {Conv(raw[k]) : k \in DOMAI
 Relevant(path) ==
   CASE path = "qpoints" -> {"dmCopy", "ompRound"}
     [] path = "mesh" -> {"ompRound"}
-    [] path = "itermesh" -> {"iterInit", "gcPrivate"}
+    [] path = "itermesh" -> {"iterInit", "gcPrivate", "iterFactor"}
     [] path = "band" -> {"closedDir"}
     [] OTHER -> {}
 AllCodes == [CodeSites -> BOOLEAN]
